@@ -84,6 +84,8 @@ def _gen_adapter(rng, uid, allow_prefix=True, allow_auth=False):
     nd = rng.random() < 0.3
     if r < 0.5:
         a = {"a": "hdr", "name": f"X-Ad-{uid}", "value": f"v{uid}"}
+    elif r < 0.56:
+        return {"a": "drop", "tag": f"d{uid}"}
     elif r < 0.8 or not allow_prefix:
         a = {"a": "wrap", "tag": f"w{uid}"}
     else:
@@ -119,6 +121,8 @@ def _sibling_spec(rng, spec, uid):
             a["name"], a["value"] = f"X-Ad-{uid}{i}", f"v{uid}{i}"
         elif a["a"] == "wrap":
             a["tag"] = f"w{uid}{i}"
+        elif a["a"] == "drop":
+            a["tag"] = f"d{uid}{i}"
         elif a["a"] == "auth":
             if a["kind"] == "bauth":
                 a["password"] = a["password"] + "-other"
